@@ -20,7 +20,7 @@ class Contract:
                  props=(), self_type=None, fields=None, is_property=False, on_call=None, let=None,
                  pure=True, kind='code', note='', allow_assert_fail=False, cases=None, hints=None,
                  yields=None, trusted=False, statement=None, varargs=None, kwargs=None, defaults=None,
-                 lemmas=None, timeout=None, negative_controls=None):
+                 lemmas=None, timeout=None, negative_controls=None, variant=None):
         self.file, self.qual = file, qual
         self.params = dict(params or {})        # name -> type string (ordered)
         self.requires = _clauses(requires)
@@ -50,13 +50,14 @@ class Contract:
         self.defaults = dict(defaults or {})
         self.lemmas = list(lemmas or [])
         self.timeout = timeout
-        REGISTRY[(file, qual)] = self
+        self.variant = variant
+        REGISTRY[(file, qual if variant is None else qual + '#' + variant)] = self
         BY_NAME.setdefault(qual, []).append(self)
         BY_NAME.setdefault(qual.split('.')[-1], []).append(self)
 
     @property
     def key(self):
-        return '%s::%s' % (self.file, self.qual)
+        return '%s::%s' % (self.file, self.qual if self.variant is None else self.qual + '#' + self.variant)
 
 
 def contract(file, qual, **kw):
